@@ -25,6 +25,8 @@ def gen_case(rng, thorough, force=None):
     c["shape"] = [rng.randint(1, mx) for _ in range(3)]
     if rng.chance(0.3):
         c["shape"][rng.randint(0, 2)] = 1
+    if force and "shape" in force:
+        c["shape"] = list(force["shape"])
     faces, consistent, bloch = {}, True, False
     for ax in range(3):
         r = rng.random()
